@@ -6,6 +6,7 @@ package main
 // probe record at a newly registered level is gated and routed as registered.
 
 import (
+	"unicode/utf8"
 	"encoding/json"
 	"fmt"
 	"strings"
@@ -118,6 +119,18 @@ func c17roundTrips(l slog.Level) (clause, detail string) {
 	var l2 slog.Level = -12345
 	if err := l2.UnmarshalText(tb); err != nil || l2 != l {
 		return "text-round-trip", fmt.Sprintf("level %d marshals to text %q, UnmarshalText gives (%d, %v)", int(l), tb, int(l2), err)
+	}
+	// the level's own JSON methods, called directly: every name, whatever its bytes
+	djb, err := l.MarshalJSON()
+	if err != nil {
+		return "json-round-trip", fmt.Sprintf("MarshalJSON of level %d: %v", int(l), err)
+	}
+	var ld slog.Level = -12345
+	if err := ld.UnmarshalJSON(djb); err != nil || ld != l {
+		return "json-round-trip", fmt.Sprintf("level %d: MarshalJSON gives %s, UnmarshalJSON of that gives (%d, %v)", int(l), djb, int(ld), err)
+	}
+	if !utf8.ValidString(name) {
+		return "", "" // a JSON string cannot carry a name that is not valid UTF-8: encoding/json is not asked
 	}
 	jb, err := json.Marshal(l)
 	if err != nil {
@@ -292,7 +305,7 @@ func c17replay(cas c17case, checkAll bool) (*Violation, string) {
 
 func c17alphabet(thorough bool, depth int) []c17op {
 	vals := []int{-8, 0, 7, 8, 12, 18, 1000}
-	titles := []string{"notice", "NOTICE", "Hint", "panic", "Panic", "warn", "warning", "", "x", `q"uo\te`, "tab\there", "404", "-7"}
+	titles := []string{"notice", "NOTICE", "Hint", "panic", "Panic", "warn", "warning", "", "x", `q"uo\te`, "tab\there", "404", "-7", "caf\xe9", "bell\x07"}
 	opts := []int{0, 1, 2, 3, 4, 5, 6, 7}
 	if depth >= 3 {
 		vals = []int{-8, 0, 12, 18}
@@ -386,5 +399,5 @@ func c17run(c *Ctx) {
 	c.Max("depth_completed", int64(depthDone))
 	c.Info("register_ops_per_depth", fmt.Sprint(len(c17alphabet(false, 1)), len(c17alphabet(false, 2)), len(c17alphabet(false, 3)), len(c17alphabet(false, 4))))
 	c.Assume("a title that differs from a name in use only by letter case may be refused or accepted; either way every level must round-trip")
-	c.Assume("titles are ASCII (ShortTag widths are compared in bytes)")
+	c.Assume("titles are ASCII, one Latin-1 title that is not valid UTF-8 and one with a control byte (ShortTag widths are compared in bytes); encoding/json is asked for names that are valid UTF-8 only")
 }
